@@ -1,0 +1,27 @@
+// Copyright (c) 2019,CAOHONGJU All rights reserved.
+// Use of this source code is governed by a MIT-style
+// license that can be found in the LICENSE file.
+
+//go:build verif
+// +build verif
+
+package service
+
+import (
+	"net"
+	"net/http"
+
+	"github.com/cnotch/ipchub/provider/auth"
+)
+
+// VerifHTTPHandler 仅供仿真使用：返回服务的 http.Handler（mux + 拦截器 + API）。
+func (s *Service) VerifHTTPHandler() http.Handler { return s.http.Handler }
+
+// VerifRTSPAccept 仅供仿真使用：rtsp 连接接入处理函数。
+func (s *Service) VerifRTSPAccept() func(net.Conn) { return s.rtsp.OnAccept }
+
+// VerifWSPAccept 仅供仿真使用：wsp 连接接入处理函数。
+func (s *Service) VerifWSPAccept() func(net.Conn) { return s.wsp.OnAccept }
+
+// VerifTokens 仅供仿真使用：令牌管理器。
+func (s *Service) VerifTokens() *auth.TokenManager { return s.tokens }
